@@ -96,6 +96,7 @@ fn cfg_strategy() -> impl Strategy<Value = SutConfig> {
             cardano_database,
             cardano_transactions,
             cardano_stake_distribution,
+            zero_stake_party: false,
         })
 }
 
@@ -194,7 +195,7 @@ pub fn case_strategy() -> impl Strategy<Value = Case> {
 fn scripted() -> Vec<(SutConfig, Vec<Op>)> {
     let mut v = vec![];
     for (n, k, m, phi) in [(3u8, 5u64, 100u64, 95u8), (4, 30, 100, 65)] {
-        let cfg = SutConfig { k, m, phi_pct: phi, n_signers: n, cardano_database: true, cardano_transactions: n == 4, cardano_stake_distribution: n == 3 };
+        let cfg = SutConfig { k, m, phi_pct: phi, n_signers: n, cardano_database: true, cardano_transactions: n == 4, cardano_stake_distribution: n == 3, zero_stake_party: false };
         let full = (1u16 << n) - 1;
         let reg = Op::Register { mask: full, keygen: 0, when: RegEpoch::Current };
         let all = || sign(full, Target::Current(0), Inlet::Http);
